@@ -62,11 +62,24 @@ package sflow
 //@       && eqbytes(er.NextHop, mkbytes(r.D, r.D.off + old(r.Pos) + 4, l - 12)) && er.SrcMask == be32(r.D, old(r.Pos) + l - 8) && er.DstMask == be32(r.D, old(r.Pos) + l - 4)
 //@   modifies er, r.Pos
 
+// raw packet header record: protocol, frame length, stripped, header length, then the sampled octets (XDR padded);
+// the record is the layered breakdown (packet.decoderSpec) of exactly those octets under the protocol on the wire
+//@ pred wfSH(b []byte, p mathint) = p + 16 <= len(b) && be32(b, p+12) <= 1500 && p + 16 + be32(b, p+12) + xdrPad(be32(b, p+12)) <= len(b) && be32(b, p+12) + xdrPad(be32(b, p+12)) > 0
+// rawPacketU / extRouterU name what the two record decoders yield as functions of the stream octets and the start
+// position (they read nothing else); the flow-sample loop only has to show that it stores exactly that value
+//@ uninterp rawPacketU(b []byte, p mathint) *packet.Packet
+//@ uninterp extRouterU(b []byte, p mathint, l mathint) *ExtRouterData
 //@ func decodeSampledHeader
 //@   names r _ _ h err p d
 //@   requires strm(r)
 //@   ensures strm(r) && r.D == old(r.D) && r.Pos >= old(r.Pos)
 //@   ensures err == nil ==> result != nil
+//@   ensures [trusted.def] err == nil ==> result == rawPacketU(r.D, old(r.Pos))
+//@   ensures [advance] wfSH(r.D, old(r.Pos)) ==> r.Pos == old(r.Pos) + 16 + be32(r.D, old(r.Pos)+12) + xdrPad(be32(r.D, old(r.Pos)+12))
+//@   ensures [ok] wfSH(r.D, old(r.Pos)) && packet.decoderOK(mkbytes(r.D, r.D.off + old(r.Pos) + 16, be32(r.D, old(r.Pos)+12)), be32(r.D, old(r.Pos))) ==> err == nil
+//@   ensures [spec.ip4] wfSH(r.D, old(r.Pos)) && err == nil && be32(r.D, old(r.Pos)) == 11 ==> packet.ip4Spec(result, mkbytes(r.D, r.D.off + old(r.Pos) + 16, be32(r.D, old(r.Pos)+12)))
+//@   ensures [spec.ip6] wfSH(r.D, old(r.Pos)) && err == nil && be32(r.D, old(r.Pos)) == 12 ==> packet.ip6Spec(result, mkbytes(r.D, r.D.off + old(r.Pos) + 16, be32(r.D, old(r.Pos)+12)))
+//@   ensures [spec.eth] wfSH(r.D, old(r.Pos)) && err == nil && be32(r.D, old(r.Pos)) == 1 ==> packet.ethSpec(result, mkbytes(r.D, r.D.off + old(r.Pos) + 16, be32(r.D, old(r.Pos)+12)))
 //@   modifies r.Pos
 
 //@ func decodeExtSwitchData
@@ -82,22 +95,50 @@ package sflow
 //@   names r l _ _ er err
 //@   requires strm(r)
 //@   ensures strm(r) && r.D == old(r.D) && r.Pos >= old(r.Pos)
+//@   ensures [trusted.def] err == nil ==> result == extRouterU(r.D, old(r.Pos), l)
 //@   ensures (l == 16 || l == 28) && old(r.Pos) + l <= len(r.D) ==> err == nil && result != nil && r.Pos == old(r.Pos) + l
 //@       && eqbytes(result.NextHop, mkbytes(r.D, r.D.off + old(r.Pos) + 4, l - 12)) && result.SrcMask == be32(r.D, old(r.Pos) + l - 8) && result.DstMask == be32(r.D, old(r.Pos) + l - 4)
 //@   ensures err == nil ==> result != nil
 //@   modifies r.Pos
 
+//@ pred othersKept(m map[string]Record, m0 map[string]Record, key string) = forall k string :: k != key ==> (has(m, k) == has(m0, k) && m[k] == m0[k])
+// flow sample: 32-octet header, then RecordsNo records, each an 8-octet (type, length) header followed by the body;
+// raw packet header (1), extended switch (1001) and extended router (1002) records are decoded and stored under
+// their names, a record of any other type is skipped by its declared length and leaves the others untouched;
 // every record costs at least its 8-octet header, so the work is bounded by the octets present
+//@ pred fsHdrAt(fs FlowSample, b []byte, p mathint) = fs.SequenceNo == be32(b, p) && fs.SourceID == be8(b, p+4) && fs.SamplingRate == be32(b, p+8)
+//@     && fs.SamplePool == be32(b, p+12) && fs.Drops == be32(b, p+16) && fs.Input == be32(b, p+20) && fs.Output == be32(b, p+24) && fs.RecordsNo == be32(b, p+28)
+// flowSampleU / flowEndU name the sample decodeFlowSample yields, and where it stops, as a function of the stream octets
+// and the start position (it reads nothing else and has no other effect); what that sample is, is said by the
+// proved clauses (header, per-record steps)
+//@ uninterp flowSampleU(b []byte, p mathint) *FlowSample
+//@ uninterp flowEndU(b []byte, p mathint) mathint
 //@ func decodeFlowSample
 //@   names r _ _ fs rTypeFormat rTypeLength err i d err d err d err
 //@   requires strm(r)
 //@   ensures strm(r) && r.D == old(r.D) && r.Pos >= old(r.Pos)
 //@   ensures err == nil ==> result != nil && r.Pos >= old(r.Pos) + 32
+//@   ensures [trusted.def] err == nil ==> result == flowSampleU(r.D, old(r.Pos)) && r.Pos == flowEndU(r.D, old(r.Pos))
+//@   ensures [hdr] err == nil ==> fsHdrAt(result, r.D, old(r.Pos))
 //@   modifies r.Pos
 //@   loop 1
 //@     invariant strm(r) && r.D == old(r.D) && fs != nil && !fs.Records.isnil && r.Pos >= old(r.Pos) + 32 + 8*i
 //@     invariant 0 <= i && i <= fs.RecordsNo
+//@     invariant fsHdrAt(fs, r.D, old(r.Pos))
 //@     decreases fs.RecordsNo - i
+//@     step [raw] be32(r.D, iter(r.Pos)) == 1 ==> has(fs.Records, "RawHeader") && isboxed(fs.Records["RawHeader"], *packet.Packet) && othersKept(fs.Records, iter(fs.Records), "RawHeader")
+//@     step [raw.value] be32(r.D, iter(r.Pos)) == 1 ==> unbox(fs.Records["RawHeader"], *packet.Packet) == rawPacketU(r.D, iter(r.Pos) + 8)
+//@     step [raw.wf] be32(r.D, iter(r.Pos)) == 1 && wfSH(r.D, iter(r.Pos) + 8) ==> r.Pos == iter(r.Pos) + 8 + 16 + be32(r.D, iter(r.Pos) + 20) + xdrPad(be32(r.D, iter(r.Pos) + 20))
+//@     step [switch] be32(r.D, iter(r.Pos)) == 1001 ==> r.Pos == iter(r.Pos) + 8 + 16 && has(fs.Records, "ExtSwitch") && isboxed(fs.Records["ExtSwitch"], *ExtSwitchData)
+//@         && unbox(fs.Records["ExtSwitch"], *ExtSwitchData).SrcVlan == be32(r.D, iter(r.Pos) + 8) && unbox(fs.Records["ExtSwitch"], *ExtSwitchData).SrcPriority == be32(r.D, iter(r.Pos) + 12)
+//@         && unbox(fs.Records["ExtSwitch"], *ExtSwitchData).DstVlan == be32(r.D, iter(r.Pos) + 16) && unbox(fs.Records["ExtSwitch"], *ExtSwitchData).DstPriority == be32(r.D, iter(r.Pos) + 20)
+//@         && othersKept(fs.Records, iter(fs.Records), "ExtSwitch")
+//@     step [router] be32(r.D, iter(r.Pos)) == 1002 ==> has(fs.Records, "ExtRouter") && isboxed(fs.Records["ExtRouter"], *ExtRouterData) && othersKept(fs.Records, iter(fs.Records), "ExtRouter")
+//@     step [router.value] be32(r.D, iter(r.Pos)) == 1002 ==> unbox(fs.Records["ExtRouter"], *ExtRouterData) == extRouterU(r.D, iter(r.Pos) + 8, be32(r.D, iter(r.Pos) + 4))
+//@     step [router.wf] be32(r.D, iter(r.Pos)) == 1002 && (be32(r.D, iter(r.Pos) + 4) == 16 || be32(r.D, iter(r.Pos) + 4) == 28) && iter(r.Pos) + 8 + be32(r.D, iter(r.Pos) + 4) <= len(r.D)
+//@         ==> r.Pos == iter(r.Pos) + 8 + be32(r.D, iter(r.Pos) + 4)
+//@     step [unknown] be32(r.D, iter(r.Pos)) != 1 && be32(r.D, iter(r.Pos)) != 1001 && be32(r.D, iter(r.Pos)) != 1002
+//@         ==> r.Pos == iter(r.Pos) + 8 + be32(r.D, iter(r.Pos) + 4) && fs.Records == iter(fs.Records)
 
 // ---- counter sample ------------------------------------------------------------------------------
 
@@ -111,16 +152,40 @@ package sflow
 //@   ensures cs.Records == old(cs.Records)
 //@   modifies cs, r.Pos
 
+// counter sample: 12-octet header, then RecordsNo records, each an 8-octet (type, length) header followed by the
+// record body; a record of a supported type is stored under its name with all fields equal to the wire values, a
+// record of any other type is skipped by its declared length and leaves the records decoded so far untouched
+//@ pred csHdrAt(cs CounterSample, b []byte, p mathint) = cs.SequenceNo == be32(b, p) && cs.SourceIDType == be8(b, p+4)
+//@     && cs.SourceIDIdx == be8(b, p+5)*65536 + be8(b, p+6)*256 + be8(b, p+7) && cs.RecordsNo == be32(b, p+8)
+//@ uninterp counterSampleU(b []byte, p mathint) *CounterSample
+//@ uninterp counterEndU(b []byte, p mathint) mathint
 //@ func decodeFlowCounter
 //@   names r _ _ cs rTypeFormat rTypeLength err i d err d err d err d err d err d err
 //@   requires strm(r)
 //@   ensures strm(r) && r.D == old(r.D) && r.Pos >= old(r.Pos)
 //@   ensures err == nil ==> result != nil && r.Pos >= old(r.Pos) + 12
+//@   ensures [trusted.def] err == nil ==> result == counterSampleU(r.D, old(r.Pos)) && r.Pos == counterEndU(r.D, old(r.Pos))
+//@   ensures [hdr] err == nil ==> csHdrAt(result, r.D, old(r.Pos))
 //@   modifies r.Pos
 //@   loop 1
 //@     invariant strm(r) && r.D == old(r.D) && cs != nil && !cs.Records.isnil && r.Pos >= old(r.Pos) + 12 + 8*i
 //@     invariant 0 <= i && i <= cs.RecordsNo
+//@     invariant csHdrAt(cs, r.D, old(r.Pos))
 //@     decreases cs.RecordsNo - i
+//@     step [gen] be32(r.D, iter(r.Pos)) == 1 ==> r.Pos == iter(r.Pos) + 8 + 88 && has(cs.Records, "GenInt") && isboxed(cs.Records["GenInt"], *GenericInterfaceCounters)
+//@         && genAt(unbox(cs.Records["GenInt"], *GenericInterfaceCounters), r.D, iter(r.Pos) + 8) && othersKept(cs.Records, iter(cs.Records), "GenInt")
+//@     step [eth] be32(r.D, iter(r.Pos)) == 2 ==> r.Pos == iter(r.Pos) + 8 + 52 && has(cs.Records, "EthInt") && isboxed(cs.Records["EthInt"], *EthernetInterfaceCounters)
+//@         && ethAt(unbox(cs.Records["EthInt"], *EthernetInterfaceCounters), r.D, iter(r.Pos) + 8) && othersKept(cs.Records, iter(cs.Records), "EthInt")
+//@     step [tr] be32(r.D, iter(r.Pos)) == 3 ==> r.Pos == iter(r.Pos) + 8 + 72 && has(cs.Records, "TRInt") && isboxed(cs.Records["TRInt"], *TokenRingCounters)
+//@         && trAt(unbox(cs.Records["TRInt"], *TokenRingCounters), r.D, iter(r.Pos) + 8) && othersKept(cs.Records, iter(cs.Records), "TRInt")
+//@     step [vg] be32(r.D, iter(r.Pos)) == 4 ==> r.Pos == iter(r.Pos) + 8 + 80 && has(cs.Records, "VGInt") && isboxed(cs.Records["VGInt"], *VGCounters)
+//@         && vgAt(unbox(cs.Records["VGInt"], *VGCounters), r.D, iter(r.Pos) + 8) && othersKept(cs.Records, iter(cs.Records), "VGInt")
+//@     step [vlan] be32(r.D, iter(r.Pos)) == 5 ==> r.Pos == iter(r.Pos) + 8 + 28 && has(cs.Records, "Vlan") && isboxed(cs.Records["Vlan"], *VlanCounters)
+//@         && vlanAt(unbox(cs.Records["Vlan"], *VlanCounters), r.D, iter(r.Pos) + 8) && othersKept(cs.Records, iter(cs.Records), "Vlan")
+//@     step [proc] be32(r.D, iter(r.Pos)) == 1001 ==> r.Pos == iter(r.Pos) + 8 + 28 && has(cs.Records, "Proc") && isboxed(cs.Records["Proc"], *ProcessorCounters)
+//@         && procAt(unbox(cs.Records["Proc"], *ProcessorCounters), r.D, iter(r.Pos) + 8) && othersKept(cs.Records, iter(cs.Records), "Proc")
+//@     step [unknown] be32(r.D, iter(r.Pos)) != 1 && be32(r.D, iter(r.Pos)) != 2 && be32(r.D, iter(r.Pos)) != 3 && be32(r.D, iter(r.Pos)) != 4 && be32(r.D, iter(r.Pos)) != 5 && be32(r.D, iter(r.Pos)) != 1001
+//@         ==> r.Pos == iter(r.Pos) + 8 + be32(r.D, iter(r.Pos) + 4) && cs.Records == iter(cs.Records)
 
 // sFlow v5 counter record, 88 octets
 //@ pred genAt(c GenericInterfaceCounters, b []byte, p mathint) = c.Index == be32(b, p) && c.Type == be32(b, p+4) && c.Speed == be64(b, p+8) &&
@@ -283,15 +348,39 @@ package sflow
 //@   loop 1
 //@     invariant forall k :: 0 <= k && k < range_i ==> d.filter[k] != f
 
+// datagram: header, then SamplesNo samples, each an 8-octet (type, length) header followed by the body. A sample
+// whose type is in the filter list, or is neither a flow (1) nor a counter (2) sample, is skipped by its declared
+// length and adds nothing; a flow/counter sample is decoded from the octets after its header and appended, in wire
+// order, to Samples/Counters; nothing decoded earlier is altered. No branch other than the first consults the filter.
+//@ pred sfHdrAt(g SFDatagram, b []byte) = g.Version == 5 && be32(b, 0) == 5 && g.IPVersion == be32(b, 4)
+//@     && (g.IPVersion != 2 ==> len(g.IPAddress) == 4 && eqbytes(g.IPAddress, mkbytes(b, b.off + 8, 4)) && g.AgentSubID == be32(b, 12) && g.SequenceNo == be32(b, 16) && g.SysUpTime == be32(b, 20) && g.SamplesNo == be32(b, 24))
+//@     && (g.IPVersion == 2 ==> len(g.IPAddress) == 16 && eqbytes(g.IPAddress, mkbytes(b, b.off + 8, 16)) && g.AgentSubID == be32(b, 24) && g.SequenceNo == be32(b, 28) && g.SysUpTime == be32(b, 32) && g.SamplesNo == be32(b, 36))
+//@ pred filtered(flt []uint32, t mathint) = exists k :: 0 <= k && k < len(flt) && flt[k] == t
+//@ pred samplesKept(now []Sample, was []Sample) = len(now) >= len(was) && (forall q :: now.off <= q && q < now.off + len(was) ==> now.arr[q] == was.arr[q - now.off + was.off])
+//@ pred countersKept(now []Counter, was []Counter) = len(now) >= len(was) && (forall q :: now.off <= q && q < now.off + len(was) ==> now.arr[q] == was.arr[q - now.off + was.off])
 //@ func (*SFDecoder).SFDecode
 //@   names d _ _ datagram err i sfTypeFormat sfDataLength err m d err d err
 //@   requires strm(d.reader) && d.reader.Pos == 0
 //@   ensures strm(d.reader) && d.reader.D == old(d.reader.D)
 //@   ensures err == nil ==> result != nil
 //@   ensures [bounded] result != nil ==> 8*(len(result.Samples) + len(result.Counters)) <= len(d.reader.D)
+//@   ensures [hdr] err == nil ==> sfHdrAt(result, d.reader.D)
 //@   modifies d.reader.Pos
 //@   loop 1
 //@     invariant strm(d.reader) && d.reader.D == old(d.reader.D) && d.filter == old(d.filter) && datagram != nil
+//@     invariant sfHdrAt(datagram, d.reader.D)
 //@     invariant 0 <= i && i <= datagram.SamplesNo && len(datagram.Samples) + len(datagram.Counters) <= i
 //@     invariant d.reader.Pos >= 8*i && 8*(len(datagram.Samples) + len(datagram.Counters)) <= len(d.reader.D)
 //@     decreases datagram.SamplesNo - i
+//@     step [skip.filtered] filtered(d.filter, be32(d.reader.D, iter(d.reader.Pos))) ==> d.reader.Pos == iter(d.reader.Pos) + 8 + be32(d.reader.D, iter(d.reader.Pos) + 4)
+//@         && datagram.Samples == iter(datagram.Samples) && datagram.Counters == iter(datagram.Counters)
+//@     step [skip.unknown] be32(d.reader.D, iter(d.reader.Pos)) != 1 && be32(d.reader.D, iter(d.reader.Pos)) != 2 ==> d.reader.Pos == iter(d.reader.Pos) + 8 + be32(d.reader.D, iter(d.reader.Pos) + 4)
+//@         && datagram.Samples == iter(datagram.Samples) && datagram.Counters == iter(datagram.Counters)
+//@     step [flow] !filtered(d.filter, be32(d.reader.D, iter(d.reader.Pos))) && be32(d.reader.D, iter(d.reader.Pos)) == 1 ==> len(datagram.Samples) == iter(len(datagram.Samples)) + 1
+//@         && isboxed(datagram.Samples[len(datagram.Samples) - 1], *FlowSample) && unbox(datagram.Samples[len(datagram.Samples) - 1], *FlowSample) == flowSampleU(d.reader.D, iter(d.reader.Pos) + 8)
+//@         && d.reader.Pos == flowEndU(d.reader.D, iter(d.reader.Pos) + 8) && samplesKept(datagram.Samples, iter(datagram.Samples)) && datagram.Counters == iter(datagram.Counters)
+//@     step [counter] !filtered(d.filter, be32(d.reader.D, iter(d.reader.Pos))) && be32(d.reader.D, iter(d.reader.Pos)) == 2 ==> len(datagram.Counters) == iter(len(datagram.Counters)) + 1
+//@         && isboxed(datagram.Counters[len(datagram.Counters) - 1], *CounterSample) && unbox(datagram.Counters[len(datagram.Counters) - 1], *CounterSample) == counterSampleU(d.reader.D, iter(d.reader.Pos) + 8)
+//@         && d.reader.Pos == counterEndU(d.reader.D, iter(d.reader.Pos) + 8) && countersKept(datagram.Counters, iter(datagram.Counters)) && datagram.Samples == iter(datagram.Samples)
+//@     step [header] datagram.Version == iter(datagram.Version) && datagram.IPVersion == iter(datagram.IPVersion) && datagram.IPAddress == iter(datagram.IPAddress) && datagram.AgentSubID == iter(datagram.AgentSubID)
+//@         && datagram.SequenceNo == iter(datagram.SequenceNo) && datagram.SysUpTime == iter(datagram.SysUpTime) && datagram.SamplesNo == iter(datagram.SamplesNo)
